@@ -584,6 +584,10 @@ class BitString(base.SimpleAsn1Type):
     def asBinary(self):
         """Get |ASN.1| value as a text string of bits.
         """
+        if not len(self._value):
+            # no bits at all: bin(0) would still print one digit
+            return ''
+
         binString = bin(self._value)[2:]
         return '0' * (len(self._value) - len(binString)) + binString
 
